@@ -11,6 +11,7 @@ import (
 
 	"verif/sim/model"
 	"verif/sim/rt"
+	"verif/sim/simkv"
 	"verif/sim/world"
 )
 
@@ -68,6 +69,15 @@ func genC15(r *rt.Rand, tier string, idx int) *world.Scenario {
 	ops := append([]world.Op{}, cl.Ops[:at]...)
 	ops = append(ops, world.Op{K: "crash", Node: 0})
 	sc.Clients = []world.Client{{Ops: ops}}
+	if idx%3 == 1 {
+		// the engine's timestamp oracle fails on the k-th call of the node that takes over
+		sc.Class += "+oracle-fault"
+		// (a standby polls the lock about once a second until the lease expires: the call right after
+		// its successful lock update is somewhere among its first ~16 oracle reads)
+		for _, k := range r.Perm(16)[:4] {
+			sc.Plan = append(sc.Plan, &simkv.Fault{Op: "tso", Node: 2, Nth: k + 1, Effect: "err"})
+		}
+	}
 	sc.MaxSteps = 60000
 	return sc
 }
@@ -81,6 +91,7 @@ func c15Custom(t *testing.T, sc *world.Scenario, out *Outcome) {
 	}
 	defer w.Teardown()
 	w.FineClock = true
+	w.YieldOnSetRevision = true
 	s := w.S
 	w.KV.LockKey = []byte(prefix + "/election")
 	start := func(n *world.Node) leader.LeaderElection {
@@ -140,7 +151,8 @@ func c15Custom(t *testing.T, sc *world.Scenario, out *Outcome) {
 	if startRevB < maxStored {
 		out.probe("new-leader-starts-below-stored-revisions")
 	}
-	// probes on the new leader
+	// probes on the new leader, against a healthy engine
+	w.KV.StopFaults()
 	var firstNew uint64
 	okRun := w.RunTask("c15-probe", -1, 20000, func() {
 		r := w.ProbeOp(world.Op{K: "create", Key: prefix + "/zz-new-leader", Val: "x", Node: 1})
